@@ -254,20 +254,21 @@ Definition baction_of (n : N) : baction :=
 
 Record sobs := mkSO {
   so_peer : list msg; so_lost : list msg; so_lq : list msg; so_deliv_o : list msg;
-  so_deliv_w : list msg; so_ev_o : list msg; so_ev_w : list msg; so_locked : bool; so_dead : bool
+  so_deliv_w : list msg; so_ev_o : list msg; so_ev_w : list msg; so_locked : bool; so_dead : bool;
+  so_kept : list msg
 }.
 
 Definition sobs_of (s : side) : sobs :=
   {| so_peer := d_peer s; so_lost := d_lost s; so_lq := d_lq s; so_deliv_o := d_deliv_o s;
      so_deliv_w := d_deliv_w s; so_ev_o := d_ev_o s; so_ev_w := d_ev_w s; so_locked := d_locked s;
-     so_dead := match d_rpc s with BR_Dead => true | _ => false end |}.
+     so_dead := match d_rpc s with BR_Dead => true | _ => false end; so_kept := d_outq s |}.
 
 Definition sobs_eqb (a b : sobs) : bool :=
   list_eqb msg_eqb (so_peer a) (so_peer b) && list_eqb msg_eqb (so_lost a) (so_lost b)
   && list_eqb msg_eqb (so_lq a) (so_lq b) && list_eqb msg_eqb (so_deliv_o a) (so_deliv_o b)
   && list_eqb msg_eqb (so_deliv_w a) (so_deliv_w b) && list_eqb msg_eqb (so_ev_o a) (so_ev_o b)
   && list_eqb msg_eqb (so_ev_w a) (so_ev_w b) && Bool.eqb (so_locked a) (so_locked b)
-  && Bool.eqb (so_dead a) (so_dead b).
+  && Bool.eqb (so_dead a) (so_dead b) && list_eqb msg_eqb (so_kept a) (so_kept b).
 
 (** side description: (locked?, stale filter, held, pending events, spontaneous chunks) *)
 Definition sdesc := (bool * option N * list msg * list msg * list chunk)%type.
